@@ -35,7 +35,7 @@ def units(tier):
     return [Unit("c10." + n, H, "h_" + n, includes=[GEN], backend="z3som", mode="RING", functions=sorted(set(ALIASES.values())), clause=c, no_checks=True,
                  cbmc_flags=["--unwind", "6", "--no-signed-overflow-check", "--object-bits", "10"], timeout=600, replay=rp,
                  assumptions=["RING: identities hold for every quaternion over Z/2^32 (degree <= 4, 8 variables, small coefficients) and specialise to the property at unit norm"])
-            for n, c in UNITS] + comp_units(tier)
+            for n, c in UNITS] + comp_units(tier) + inv_units(tier)
 
 
 HC = os.path.join(VERIF, "harness", "c10_comp.c")
@@ -77,12 +77,36 @@ def comp_units(tier):
             for n, fns, c in COMP]
 
 
+IDRIVER = '''#include "ImathQuat.h"
+using namespace IMATH_INTERNAL_NAMESPACE;
+void use10i (Quat<float> &a, Quat<float> &b) { a = b.inverse (); a = a * b; }
+'''
+IAL = {"inverse": "Quat<float>::inverse() const", "qmul": "operator*<float>(const Quat<float> &, const Quat<float> &)"}
+
+
+def inv_units(tier):
+    """q * inverse(q): RETYPE (see C15 / DESIGN 10.1)"""
+    from . import c15
+    ex = extract.run_extraction("c10ix", IDRIVER, sorted(IAL.values()), outdir=GEN, extern_patterns=c15.LIMITS)
+    c15.literal_check(ex.c_path)
+    txt = "\n".join("#define F_%s %s" % (a, ex.names[sp]) for a, sp in IAL.items()) + "\n"
+    p = os.path.join(GEN, "c10i_names.h")
+    if not os.path.exists(p) or open(p).read() != txt:
+        open(p, "w").write(txt)
+    EXTRACTION["c10ix"] = {"functions": len(ex.order), "differential": {k: ex.diff.get(k) for k in ("tested", "cases")}, "skipped": ex.diff.get("skipped", []), "retype": "float := int"}
+    HI = os.path.join(VERIF, "harness", "c10_inv.c")
+    return [Unit("c10.inverse", HI, "h_inverse", includes=[GEN], backend="z3som", mode="RING", functions=sorted(IAL.values()), no_checks=True, timeout=600,
+                 cbmc_flags=["--unwind", "6", "--no-signed-overflow-check", "--no-div-by-zero-check", "--object-bits", "10"],
+                 replay={"src": HI, "lang": "c", "cxx": [ex.shim_cpp], "includes": [GEN] + ex.includes},
+                 clause="inverse(q) == conjugate(q) / (q^q); q * inverse(q) == inverse(q) * q == (N inv(N), 0, 0, 0): the identity quaternion for q != 0 (RETYPE: exact-arithmetic identity with the residual N inv(N) explicit)",
+                 assumptions=["RETYPE: the float instantiation's extracted text evaluated over Z/2^32; a/b = a*inv(b) with inv uninterpreted; rounding is not covered"])]
+
+
 def extra_coverage(units, tier):
     return {"extraction": EXTRACTION}
 
 
 NOT_COVERED = [
     "exp(log q), setAxisAngle(axis(),angle()), extractQuat(toMatrix44), setRotation(from,to) incl. the antipodal fallback, slerp itself (unit norm, endpoints, linear 4-D angle), tangent continuity of spline (analytic; only the composition structure of slerpShortestArc / squad / intermediate / spline is proved), Quat vs Matrix44 setAxisAngle: transcendental functions and normalisation",
-    "q * inverse(q) == identity (division by q^q is not a ring operation; q * ~q == N is the ring statement)",
 ]
 ASSUMPTIONS = ["RING mode (see C05)", "cxx2c extraction rules; differential validation"]
